@@ -660,7 +660,7 @@ def check_commutes_tolerance(ctx, cirq):
         if 0.2 * atol < dev < 5 * atol:
             continue  # too close to the threshold to demand an answer
         want = dev <= atol
-        for form, x, y in (('gates', g1, g2), ('operations', g1.on(*q[:k]), g2.on(*q[:k]))):
+        for form, x, y in (('gates', g1, g2), ('operations', g1.on(*q[:k]), g2.on(*q[:k])), ('matrices', u1, u2)):
             got = cirq.commutes(x, y, atol=atol, default=None)
             ctx.count('check', f'commutes-tol:{form}')
             ctx.case(['commutes-tol', form, repr(g1), eps, atol], True)
